@@ -14,3 +14,8 @@ func VerifLookupSeries(db MetricIndexDatabase, metricID metric.ID, tagsHash uint
 	binary.LittleEndian.PutUint64(scratch[:], tagsHash)
 	return db.(*metricIndexDatabase).series.GetValue(uint32(metricID), scratch[:])
 }
+
+// VerifNamespaceID returns the id stored for a namespace without creating it.
+func VerifNamespaceID(db MetricMetaDatabase, ns []byte) (uint32, bool, error) {
+	return db.(*metricMetaDatabase).ns.GetValue(uint32(ns[0]), ns)
+}
